@@ -222,6 +222,46 @@ def gen_quadratic(rng, d, kind, centred_1d=False):
                 centred_1d=centred_1d)
 
 
+N_LOC_QUICK = 32
+LOCATIONS = [0.0, 1e3, 1e5, 1e7]       # translation of the whole problem, in units of the box width per coordinate
+
+
+def relocate(rng, q, K, position):
+    """the *location* axis of the tail identity: the same quadratic (lam, Q, b, t0) with its optimum and its box translated by
+    +-K box widths per coordinate (the property is translation invariant: P[f(X) > y] is a ratio of volumes), and the position of
+    the optimum *within* the box: "centred" keeps the generated margins, "near_face" widens the box on the far side of one or
+    two coordinates so that the (strictly interior) optimum sits at 0.2-5 % of the width from a face.  The box is rebuilt from
+    the translated optimum, so the level ellipsoid {f >= b - t0} lies inside it exactly as before (up to the rounding of the
+    end points, the same as in the untranslated strata)."""
+    d = q["d"]
+    ainv_diag = np.sum(np.array(q["Q"]) ** 2 / np.array(q["lam"]), axis=1)
+    half = np.sqrt(2 * q["t0"] * ainv_diag)
+    dlo = [q["xstar"][i] - q["lo"][i] for i in range(d)]       # margins of the generated box (>= half up to rounding)
+    dhi = [q["hi"][i] - q["xstar"][i] for i in range(d)]
+    near = []
+    if position == "near_face":
+        near = rng.sample(range(d), 1 if d == 1 or rng.random() < 0.7 else 2)
+        for i in near:
+            m = half[i] * rng.uniform(1.0, 1.05)                # distance of the optimum from the near face (ellipsoid inside)
+            width = m / (0.002 * 25 ** rng.random())            # log-uniform: the optimum at 0.2-5 % of the width from the face
+            if rng.random() < 0.5:
+                dlo[i], dhi[i] = m, width - m
+            else:
+                dlo[i], dhi[i] = width - m, m
+    xs, lo, hi, shifts = [], [], [], []
+    for i in range(d):
+        sh = rng.choice([-1.0, 1.0]) * K * (dlo[i] + dhi[i])
+        x = q["xstar"][i] + sh
+        l, h = x - dlo[i], x + dhi[i]
+        if K and not (l < x < h and min(x - l, h - x) >= half[i] * (1 - 1e-9) - 4 * math.ulp(abs(x))):
+            raise AssertionError("harness: the translated box does not contain the level ellipsoid")
+        xs.append(x); lo.append(l); hi.append(h); shifts.append(sh)
+    rel_dist = min(min(xs[i] - lo[i], hi[i] - xs[i]) / (hi[i] - lo[i]) for i in range(d))
+    return dict(q, xstar=xs, lo=lo, hi=hi, np_seed=rng.getrandbits(32), centred_1d=False,
+                location=dict(K=K, position=position, near_face_axes=near, shift=shifts,
+                              optimum_to_nearest_face_over_width=rel_dist))
+
+
 def exact_tail(q, y):
     """P[f(X) > y], X uniform on the box, for a level whose ellipsoid lies inside the box: closed-form volume ratio"""
     import mpmath as mp
@@ -240,15 +280,35 @@ def exact_tail(q, y):
 
 
 def describe(q):
-    return dict(d=q["d"], kind=q["kind"], lam=q["lam"], Q=np.array(q["Q"]).tolist(), xstar=q["xstar"], b=q["b"],
-                bounds=[[l, h] for l, h in zip(q["lo"], q["hi"])], t0=q["t0"], np_seed=q["np_seed"])
+    out = dict(d=q["d"], kind=q["kind"], lam=q["lam"], Q=np.array(q["Q"]).tolist(), xstar=q["xstar"], b=q["b"],
+               bounds=[[l, h] for l, h in zip(q["lo"], q["hi"])], t0=q["t0"], np_seed=q["np_seed"])
+    if "location" in q:
+        out["location"] = q["location"]
+    return out
+
+
+B_FINDING = "C20-b-off-where-the-box-coordinates-absorb-the-optimiser-polish-step"
+
+
+def polish_blind(lo, hi):
+    """some coordinate of the whole box has |x| >= 2^27: there ulp(x)/2 = 1.49e-8 exceeds the absolute forward-difference step
+    1e-8 of the L-BFGS-B polish inside scipy's differential_evolution, x + 1e-8 == x, the numerical gradient is 0 and what is
+    returned is the unpolished population best (convergence tol 0.01)"""
+    return any((l > 0) == (h > 0) and min(abs(l), abs(h)) >= 2.0 ** 27 for l, h in zip(lo, hi))
+
+
+def b_finding_key(lo, hi, b_returned, b_true):
+    """explicit predicate on the failing input: polish-blind box, b below the maximum (never above) by at most 1e-2 relative
+    (measured on the unchanged tree: up to 1.1e-3; below 2^27 the error stays under 3e-9)"""
+    rel_err = (b_true - b_returned) / max(1.0, abs(b_true))
+    return B_FINDING if polish_blind(lo, hi) and 0 <= rel_err <= 1e-2 else None
 
 
 REPLAY_SNIPPET = ("A = Q @ diag(lam) @ Q.T; f = lambda x: b - 0.5*npx.sum((x-xstar)*npx.dot(x-xstar, A), axis=-1)  "
                   "[autograd.numpy as npx]; np.random.seed(np_seed); get_approximation_parameters(f, bounds)")
 
 
-def run_params(rep, rng, drv, tier, analytic):
+def run_params(rep, rng, drv, tier, analytic, lrng):
     from opda import parametric
     from scipy.stats import qmc
     import mpmath as mp
@@ -261,6 +321,12 @@ def run_params(rep, rng, drv, tier, analytic):
         qs.append(gen_quadratic(rng, d, kind))
     for _ in range(6 if tier == "quick" else 30):
         qs.append(gen_quadratic(rng, 1, "diag", centred_1d=True))
+    # location stratum (own generator, so that the strata above are the ones they were): every translation x both positions of
+    # the optimum in the box, dimensions and rotated/diagonal cycling
+    for k in range(N_LOC_QUICK if tier == "quick" else 160):
+        d = 1 + (k // 8) % 4 if tier == "quick" else 1 + (k // 8) % 6
+        kind = "rotated" if (d >= 2 and lrng.random() < 0.5) else "diag"
+        qs.append(relocate(lrng, gen_quadratic(lrng, d, kind), LOCATIONS[k % 4], ("centred", "near_face")[(k // 4) % 2]))
 
     outs = []
     for q in qs:
@@ -271,6 +337,8 @@ def run_params(rep, rng, drv, tier, analytic):
         rep.count(f"params_{q['kind']}")
         if q["centred_1d"]:
             rep.count("params_literal_1d_box_equals_level_set")
+        if "location" in q:
+            rep.count("params_location:box_translated_by_%g_widths:optimum_%s" % (q["location"]["K"], q["location"]["position"]))
         np.random.seed(q["np_seed"])     # differential_evolution(seed=None) draws from numpy's global generator
         try:
             with warnings.catch_warnings():
@@ -301,10 +369,19 @@ def run_params(rep, rng, drv, tier, analytic):
         ar, br = float(np.real(a)), float(np.real(b))
         # b: the maximum of f, to the black-box optimiser's accuracy, and never above it
         rep.case(("params_b", d, q["np_seed"]))
-        worst("b_vs_true_maximum_rel", abs(br - q["b"]) / max(1.0, abs(q["b"])))
-        if abs(br - q["b"]) > TOL_B * max(1.0, abs(q["b"])) or br > q["b"] + 64 * ULP * max(1.0, abs(q["b"])):
-            rep.violate(what="b is not the maximum of f (differs by more than 1e-7 relative, or exceeds it)", input=inp,
-                        expected=q["b"], observed=br, call=REPLAY_SNIPPET)
+        b_err = abs(br - q["b"]) / max(1.0, abs(q["b"]))
+        blind = polish_blind(q["lo"], q["hi"])
+        worst("b_vs_true_maximum_rel" + ("_where_the_polish_step_is_absorbed" if blind else ""), b_err)
+        if b_err > TOL_B or br > q["b"] + 64 * ULP * max(1.0, abs(q["b"])):
+            key = b_finding_key(q["lo"], q["hi"], br, q["b"])
+            if key is not None:
+                rep.count("params_tail_not_judged:" + key)
+                KEYED[key] = KEYED.get(key, 0) + 1
+            if key is not None and KEYED[key] > 3:
+                rep.count("repeats_of_" + key)
+            else:
+                rep.violate(what="b is not the maximum of f (differs by more than 1e-7 relative, or exceeds it)", input=inp,
+                            expected=q["b"], observed=br, call=REPLAY_SNIPPET, **({"finding_key": key} if key else {}))
             continue
         eigs = [-l for l in q["lam"]]
         bl = " ".join(f"{C.fhex(l)} {C.fhex(h)}" for l, h in zip(q["lo"], q["hi"]))
@@ -662,7 +739,7 @@ def run(seed, tier, replay=None):
     rep = C.Report("C20", seed, tier)
     drv = C.Driver()
     run_ellipse(rep, C.rng_for("C20.ellipse", seed), drv, tier, analytic)
-    run_params(rep, C.rng_for("C20.params", seed), drv, tier, analytic)
+    run_params(rep, C.rng_for("C20.params", seed), drv, tier, analytic, C.rng_for("C20.params.location", seed))
     run_sim(rep, C.rng_for("C20.sim", seed), drv, tier, simulation)
     if rep.hist.get("a_returned_with_complex_dtype"):
         rep.notes.append("get_approximation_parameters returned `a` with a complex dtype (zero imaginary part) in %d calls: "
@@ -671,7 +748,8 @@ def run(seed, tier, replay=None):
     return rep.result(
         rule="ellipse_volume within 64 ulps of the exact formula (mpmath), permutation invariant, homogeneous (bit-exact for 2^k); "
              "c == d; b within 1e-7 of the true maximum; a within 1e-9 (relative) of the Lean model fed with the returned b; "
-             "exact P[f(X)>y] (closed-form volume ratio) within 1e-7 of 1-cdf(y) at levels whose ellipsoid lies in the box; "
+             "exact P[f(X)>y] (closed-form volume ratio) within 1e-7 of 1-cdf(y) at levels whose ellipsoid lies in the box, also with "
+             "optimum and box translated by 0, 1e3, 1e5, 1e7 box widths per coordinate x optimum centred / at 0.2-5 % of the width from a face; "
              "Simulation.run: shapes, bounds, yss=func(xss), first-trial slices, yss_cummax == model exactly, "
              "y_min<=yss<=y_max to 1e-9 (unless the optimiser cannot locate the optima), determinism",
         extra=dict(driver_lines=drv.lines, extra=dict(worst_observed_deviation=dict(WORST))))
